@@ -636,7 +636,7 @@ def sim_scripts(sc, name, prog, drop, num, depth, qn=256):
 
 
 def run_campaign(ck, prop, sc, exe, rng, mc_progs, graph_progs, nrandom, sim=None, liveness=False, qn=256,
-                 flush_bias=False):
+                 flush_bias=False, extra=()):
     """mc_progs: [(prog, drop)] model-checked exhaustively with scaled time constants;
     graph_progs: [(prog, drop, max_ticks)] whose complete state graph (real time constants, bounded number of
     clock ticks) is covered edge by edge with scripted runs of the real code;
@@ -701,6 +701,10 @@ def run_campaign(ck, prop, sc, exe, rng, mc_progs, graph_progs, nrandom, sim=Non
         if cfg["tick"] == 1000:
             # time runs whenever it can, every retry loop runs to its timeout (thousands of steps per call): small programs
             prog = gen_program(rng, qbytes=qn, nthreads=rng.choice([1, 2]), maxops=2)
+        texts.append(program_text(prog, cfg))
+        resets.append(reset_fields(prog, cfg["drop"], qn))
+        origin.append("random")
+    for (prog, cfg) in extra:
         texts.append(program_text(prog, cfg))
         resets.append(reset_fields(prog, cfg["drop"], qn))
         origin.append("random")
